@@ -5,6 +5,7 @@
 # violation again (a repaired defect "reports the violation again if it ever returns").
 tier=${1:-quick}
 wt=/tmp/wt_eval
+[ -d "$wt" ] || git -C /repo worktree add -q --detach "$wt" HEAD   # scratch worktree; remove it afterwards: git -C /repo worktree remove --force $wt
 head=$(git -C /repo rev-parse HEAD)
 mkdir -p /dev/shm/wnmc_eval_evidence
 grep "^fixed:" /verif/known_findings.txt | awk '{print $2, $3}' | sort -u | while read p c; do
